@@ -62,6 +62,10 @@ let check (case : Sexp.t) (res : Sexp.t) : [ `Ok | `Mismatch of string | `Proper
        let model = evaluate fuel_steps a.elab in
        (* 2. the reference interpreter on the parsed source term *)
        let ref_ = run_env fuel_env a.parsed in
+       (* a `_` written in an EVALUATED position (an argument such as `id _ 5`) is a hole in the parsed source and a
+          solved type in the elaborated term: the semantics is that of the elaborated term, so the reference
+          interpreter runs on it whenever the source run stops at an unfilled hole *)
+       let ref_ = (match ref_ with RStuck UnfilledHole -> run_env fuel_env a.elab | _ -> ref_) in
        (match a.ev, model, ref_ with
         | `NoEval, _, _ -> (`Ok, false)
         | _, None, _ | _, _, RFuel -> (`Ok, false) (* out of fuel: inconclusive *)
